@@ -22,6 +22,7 @@ class VLoop(asyncio.AbstractEventLoop):
         # with call_soon - the hook lets a harness explore that (it may decide on symbolic times / Booleans).
         self.batch_hook = batch_hook
         self._now = t0
+        self._anchor = t0
         self._ready: collections.deque = collections.deque()
         self._timers: list = []
         self._closed = False
@@ -126,19 +127,46 @@ class VLoop(asyncio.AbstractEventLoop):
 
     def run(self, until=None, horizon=None, max_steps=200_000):
         """Run until ``until`` (a future, or a callable predicate) is done, no work is left,
-        or virtual time would pass ``horizon``."""
+        or virtual time would pass ``horizon``.
+
+        Without a batch hook the ready queue is drained before the next timer is looked at.  With one, the
+        loop works in *generations* like asyncio's ``_run_once``: only the handles queued when a generation
+        starts are run; then the timers that are due - and, if the hook says so, those within its latency
+        window - join the queue behind the callbacks scheduled meanwhile with call_soon... exactly the
+        order a real loop produces (call_soon'd work of iteration N runs in N+1, after N's I/O and timers)."""
         events._set_running_loop(self)
         try:
             while True:
-                while self._ready:
-                    h = self._ready.popleft()
-                    self.steps += 1
-                    if self.steps > max_steps:
-                        raise LoopStepLimit(f"> {max_steps} loop steps")
-                    if not h._cancelled:
-                        h._run()
-                    if until is not None and self._done(until):
-                        return True
+                if self._ready:
+                    n = len(self._ready) if self.batch_hook is not None else -1
+                    while self._ready and n != 0:
+                        h = self._ready.popleft()
+                        n -= 1
+                        self.steps += 1
+                        if self.steps > max_steps:
+                            raise LoopStepLimit(f"> {max_steps} loop steps")
+                        if not h._cancelled:
+                            h._run()
+                        if until is not None and self._done(until):
+                            return True
+                    if self.batch_hook is not None and self._ready:
+                        # generation boundary: what became due while this generation ran goes *before* the
+                        # callbacks it scheduled (they were appended to the deque already: insert in front)
+                        pulled = []
+                        while True:
+                            t2 = self._pop_earliest()
+                            if t2 is None:
+                                break
+                            if (horizon is not None and t2._when > horizon) or not (t2._when <= self._now or self.batch_hook(None, t2, self._anchor)):
+                                self._timers.append(t2)
+                                break
+                            if t2._when > self._now:
+                                self._now = t2._when
+                            pulled.append(t2)
+                        # asyncio appends I/O and timer handles *after* the call_soon'd ones of the previous
+                        # iteration: keep that order
+                        self._ready.extend(pulled)
+                    continue
                 if until is not None and self._done(until):
                     return True
                 t = self._pop_earliest()
@@ -149,12 +177,13 @@ class VLoop(asyncio.AbstractEventLoop):
                     return False
                 if t._when > self._now:  # may fork
                     self._now = t._when
+                self._anchor = self._now  # the burst of iterations that starts here takes at most the hook's window
                 self._ready.append(t)
                 while self.batch_hook is not None:
                     t2 = self._pop_earliest()
                     if t2 is None:
                         break
-                    if (horizon is not None and t2._when > horizon) or not self.batch_hook(t, t2):
+                    if (horizon is not None and t2._when > horizon) or not self.batch_hook(t, t2, self._anchor):
                         self._timers.append(t2)
                         break
                     if t2._when > self._now:
